@@ -469,6 +469,24 @@ func opIoOrganism(g *G) (interface{}, []uint64, int, interface{}) {
 	st.HighestFitness = ioFloat(g, true)
 	st.IsPopulationChampionChild = g.chance(0.5)
 	genetics.VerifSetOrganismState(org, st)
+	if g.chance(0.3) && len(gn.Genes) > 0 {
+		// SEQUENCE on one organism: marshal, change the genome in place (no UpdatePhenotype), marshal again - the
+		// second binary form must carry the genome as it is now
+		_, _ = org.MarshalBinary()
+		for k := 1 + g.intn(3); k > 0; k-- {
+			gene := gn.Genes[g.intn(len(gn.Genes))]
+			switch g.intn(3) {
+			case 0:
+				gene.Link.ConnectionWeight = ioFloat(g, true)
+			case 1:
+				gene.IsEnabled = !gene.IsEnabled
+			default:
+				gene.MutationNum = ioFloat(g, true)
+			}
+		}
+		org.Fitness = ioFloat(g, true)
+		fam += "+remarshal"
+	}
 	in := &ioOrgIn{Src: dumpOrgBin(org), Family: fam}
 	out := &ioOrgOut{}
 	data, err := org.MarshalBinary()
